@@ -19,7 +19,9 @@ RULE = ("v1: rows = the two recorded CSV days (sampled, optionally with one toke
         "10 x balance/holding, unknown token, token without wallet entry; a fee sweep over (token, USDG delta incl. exact target crossings, direction) against "
         "an integer re-implementation of VaultUtils.getFeeBasisPoints; same-bar round trips.  v2: pools with long/short skew 0.01-50, virtual inventory "
         "present/absent/None, impact pool 0-1e9, zeroed fields, default and perturbed PoolConfig (incl. positive > negative factor, exponent != 2), "
-        "dataclass rows and pandas rows; deposit/withdraw sequences with the same amount classes; round trips.  "
+        "dataclass rows and pandas rows; deposit/withdraw sequences with the same amount classes; round trips.  special numbers: every amount argument of "
+        "buy_glp / sell_glp / deposit / withdraw as float nan, +-inf, -0.0, +-1e90 and Decimal NaN, sNaN, +-Infinity, +-1E+400, -0, 1E-400, with the strict wallet and with "
+        "allow_negative_balance, after 0-2 ordinary operations (no number of the state may become NaN/inf; v2 and finite v1 arguments are also compared with the model).  "
         "bucket = (version, operation, model branch tag or fee branch, outcome class, argument class).")
 TRUSTED = [
     "v1 is Decimal arithmetic: the driver runs the model under round-half-even to 35 digits and every number is compared exactly; theorems are for the exact rational semantics",
@@ -34,6 +36,8 @@ ASSUMPTIONS = [
     "token weights and USDG amounts in a v1 row are integers (as in the recorded data); quantize overflow beyond 35 digits is modelled as InvalidOperation",
     "v2 rows given as pandas Series are well formed (non-zero prices, pool value, supply): numpy floats return inf/nan where Python floats raise ZeroDivisionError",
     "same bar = the pool row does not react to the user's own trade (that is how the backtester works)",
+    "float amounts beyond ~1e100 make `diffUsd ** exponent` raise OverflowError, which the model does not reproduce: the special-number stream stops at 1e90 "
+    "(fixes/gmx-v2-deposit-overflow.md records what happens at 1e308 with allow_negative_balance)",
 ]
 
 
@@ -114,6 +118,11 @@ def v1_step_oracle(ctx, w, op, cls, out, res, pre, post, spec, rep=None):
         ctx.violate("v1.buy_glp.negative_amount", f"buy_glp({op['tok']}, {op['amount']}) accepted: returned {res} GLP and credited the wallet", rep)
     if out == "ok" and op["kind"] in ("buy", "sell") and F(op["amount"]) >= 0 and (op["kind"] == "buy" or F(pre["glp"]) >= 0):
         v1_formula_oracle(ctx, w, op, res, spec, pre["glp"], rep)
+    if op["kind"] in ("buy", "sell") and F(post["reward"]) != F(pre["reward"]):
+        # rewards accrue once per bar, at update(), pro rata to the holding of that moment — no trade, accepted or rejected, touches the pending
+        # reward (theorem C17_v1_reward_accrues_pro_rata_over_runs)
+        ctx.violate(f"v1.{op['kind']}_glp.reward_changed", f"{op['kind']}_glp({op.get('tok')}, {op.get('amount')}) -> {out} changed the pending reward from {pre['reward']} to "
+                    f"{post['reward']} (holding {pre['glp']}): the bar's reward is accrued by update() alone", rep)
     if op["kind"] == "update" and out == "ok":
         r = w.market.market_status.data
         want = F(float(r["interval"])) * 60 * F(pre["glp"]) / F(r["glp"])
@@ -139,16 +148,20 @@ def v1_sequences(ctx: Ctx, n: int):
             post = w.dump()
             ctx.impl_traces += 1
             v1_step_oracle(ctx, w, op, cls, out, res, pre, post, spec)
-            pending.append((kind, op, cls, out, res, acts, post, spec,
-                            {"fn": "gmx1.step", "env": env, "state": {"glp": pre["glp"], "reward": pre["reward"], "wallet": pre["wallet"]},
-                             "op": G.v1_op_json(op, w)}))
+            unit = F(0)          # one token wei worth of GLP: what a 1 bp fee difference can move across a round-down step of the buy
+            if op["kind"] == "buy" and out == "ok":
+                r_ = w.market.market_status.data
+                if F(r_["glp_price"]) > 0:
+                    unit = F(1, 10 ** w.token(op["tok"]).decimal) * F(r_[f"{op['tok']}_price"]) / G.E30 / F(r_["glp_price"])
+            pending.append((kind, op, cls, out, res, acts, post, spec, unit,
+                            w.step_request(pre, env, op)))
     if not ctx.driver_ok:
         for kind, op, cls, out, *_ in pending:
             ctx.case(f"v1:{op['kind']}:?:{out}:{cls}")
         return
     ans = driver_json([p[-1] for p in pending], exe="driver_gmx")
     ex = driver_json([dict(p[-1], ctx="exact") for p in pending], exe="driver_gmx")
-    for (kind, op, cls, out, res, acts, post, spec, req), a, e in zip(pending, ans, ex):
+    for (kind, op, cls, out, res, acts, post, spec, unit, req), a, e in zip(pending, ans, ex):
         rep = {"world": spec, "ops": [ser_op(op)]}
         if "error" in a:
             ctx.disagree(f"driver error {a['error']}", rep)
@@ -169,7 +182,7 @@ def v1_sequences(ctx: Ctx, n: int):
                 # exact and 35-digit arithmetic disagree visibly: only the int() of the tax can do that (theorems
                 # C17_v1_capped_tax_rounding_exactly_1bp / ..._round35_exactly_1bp: 84 instead of 85 bp in the capped branch)
                 ctx.count(f"exact_vs_py_visible_difference:{a['tag']}")
-                if abs(x - y) > F(2, 10 ** 4) * max(abs(x), abs(y)):
+                if abs(x - y) > F(2, 10 ** 4) * max(abs(x), abs(y)) + 2 * unit:     # + the round-down step the 1 bp may cross (tiny buys of 6/8-decimal tokens)
                     ctx.disagree(f"v1 {op['kind']}: exact-arithmetic result {float(x)!r} and implementation {res} differ by more than the 1 bp the rounding lemma allows", rep)
 
 
@@ -386,14 +399,15 @@ def v1_multibar(ctx: Ctx, n: int):
                 if op["kind"] == "fee":
                     req = {"fn": "gmx1.fee", "env": env, "tok": op["tok"], "usdg": op["amount"], "increase": op["increase"]}
                 else:
-                    req = {"fn": "gmx1.step", "env": env, "state": {"glp": pre["glp"], "reward": pre["reward"], "wallet": pre["wallet"]}, "op": G.v1_op_json(op, w)}
+                    req = w.step_request(pre, env, op)
                 steps.append((op, k, classes[k], cls, out, res, acts, post, rep, req))
         f = w.object_fields()
         m = w.market
         if (m.glp_decimal, m.mint_burn_fee_basis_points, m.tax_basis_points) != (18, 25, 60):
             ctx.disagree(f"v1 object constants changed during a run: glp_decimal {m.glp_decimal}, fee {m.mint_burn_fee_basis_points}, tax {m.tax_basis_points}", {"world": spec0, "events": list(hist)})
         fields = f if fields is None else sorted(set(fields) | set(f))
-        folds.append((seen, {"fn": "gmx1.events", "env0": env0, "state": {"glp": st0["glp"], "reward": st0["reward"], "wallet": st0["wallet"]}, "events": evs},
+        folds.append((seen, {"fn": "gmx1.events", "env0": env0, "state": {"glp": st0["glp"], "reward": st0["reward"], "wallet": st0["wallet"]}, "events": evs,
+                              "allowNeg": bool(w.allow_negative)},
                       {"world": spec0, "events": list(hist)}))
     if not ctx.driver_ok:
         for op, k, bcls, cls, out, *_ in steps:
@@ -511,7 +525,12 @@ def v2_step_oracle(ctx, w, op, out, res, pre, post, rep):
         ctx.violate("v2.withdraw.negative_amount", f"withdraw({op['amount']!r}) raised {out} after changing the holding from {a0!r} to {a1!r}", rep)
     if out == "ok" and all(float(op[k]) >= 0 for k in ("long", "short") if k in op) and (op["kind"] == "deposit" or (op["amount"] is None or 0 <= float(op["amount"]) <= a0)):
         if all(math.isfinite(float(getattr(res, k))) for k in G.LP_FIELDS):
-            v2_formula_oracle(ctx, w, op, res, a0, rep)
+            try:
+                v2_formula_oracle(ctx, w, op, res, a0, rep)
+            except ZeroDivisionError:
+                # a row with zero supply / price / token value: value per share is undefined there, so the formula clause says nothing
+                # (the unchanged code raises ZeroDivisionError on such rows itself; a variant that accepts the call must not crash the oracle)
+                ctx.count(f"v2_formula_undefined_on_degenerate_row:{op['kind']}")
 
 
 def v2_sequences(ctx: Ctx, n: int):
@@ -762,7 +781,8 @@ def v1_actuator_runs(ctx: Ctx, n: int):
             evs.append({"ev": "balance"})
             seen.append(("balance", k, a._account_status_list[k]))
         folds.append((seen, classes, len(a.actions), w.market.market_info,
-                      {"fn": "gmx1.events", "env0": env0, "state": {"glp": st0["glp"], "reward": st0["reward"], "wallet": st0["wallet"]}, "events": evs},
+                      {"fn": "gmx1.events", "env0": env0, "state": {"glp": st0["glp"], "reward": st0["reward"], "wallet": st0["wallet"]}, "events": evs,
+                              "allowNeg": bool(w.allow_negative)},
                       {"world": spec0, "events": list(hist), "via": "actuator"}))
     import logging
     logging.disable(logging.NOTSET)
@@ -931,6 +951,7 @@ def run(ctx: Ctx):
     v2_multibar(ctx, ctx.scale(160, 3000))
     v1_actuator_runs(ctx, ctx.scale(12, 150))
     v2_actuator_runs(ctx, ctx.scale(12, 150))
+    G.special_stream(ctx, ctx.scale(500, 8000), "")
     G.static_state_check(ctx, static0)
     rec = G.recorded_rows()
     ctx.note("recorded_rows_available", rec is not None and len(rec))
@@ -949,6 +970,8 @@ def run(ctx: Ctx):
 def replay(ctx: Ctx, case) -> bool:
     sub = Ctx(ctx.prop, ctx.tier, ctx.seed, False)
     sp = case["world"]
+    if "special" in case:
+        return G.special_replay(case, "")
     if "roundtrip" in case:
         rt = case["roundtrip"]
         if sp["ver"] == 1:
